@@ -31,7 +31,7 @@ static Str norm_input(Ctx& c, uint64_t idx, const char** gen) {
     if (idx < norm_nsys()) { idx -= norm_nchars(); *gen = "systematic"; Str pre = N_PRE[idx % NPRE]; return pre + gpaths_case(idx / NPRE, 4); }
     Rng& r = c.rng; UriGenOpts o; o.maxSegs = 7;
     switch (r.below(5)) {
-    case 0: *gen = "uri"; return gen_uri(r, o);
+    case 0: *gen = "uri"; o.huge = true; return gen_uri(r, o);
     case 1: *gen = "dots"; o.dotHeavy = true; return gen_uri(r, o);
     case 2: *gen = "relative-dots"; o.dotHeavy = true; o.scheme = 0; o.auth = 0; return gen_uri(r, o);
     case 3: { *gen = "pct"; Str s = gen_uri(r, o); // sprinkle triplets in both cases, reserved and unreserved
